@@ -262,10 +262,46 @@ def check_selfterm(ws, case):
     return [], info
 
 
+def gen_waituntil(slices):
+    for n in (1, 2, 5):                         # the condition is true at its n-th evaluation
+        for how in ("counter", "flag"):         # own counter / a flag another script sets after sleeping
+            for comp in ("none", "long"):
+                for s in slices:
+                    yield [n, how, comp, s]
+
+
+def check_waituntil(ws, case):
+    """waitUntil resumes the script when - and not before - its condition is true."""
+    n, how, comp, slice_len = case
+    if how == "counter":
+        main = 'private _k = 0; waitUntil { _k = _k + 1; diag_log str ["ev", _k]; _k >= %d }; diag_log str ["end", _k]' % n
+    else:
+        main = ('WUF = 0; [] spawn { for "_j" from 1 to %d do { sleep 0.002; WUF = _j; diag_log str ["set", _j] } }; '
+                'waitUntil { WUF >= %d }; diag_log str ["end", WUF]') % (n, n)
+    scripts = [main] + ([] if comp == "none" else [SHAPES[comp]("c")])
+    r = run(ws, scripts, slice_len, 100)
+    if r["outcome"] != "ok":
+        return [("C12|waitUntil|%s" % r.get("kind", r["outcome"]), "%r: %s" % (case, r.get("kind", r["outcome"])), None, case)], {"n": 1}
+    res = r["result"]
+    info = {"n": 1, "nontrivial": 1, "states": len(res["slices"]), "transitions": sum(x["n"] for x in res["slices"]), "executions": 1}
+    seq = [I.parse_value(m["msg"].split("[DIAG_LOG] ", 1)[1]) for m in res["log"] if m["code"] == 60019]
+    seq = [x for x in seq if x[0] in ("ev", "set", "end")]
+    ends = [x for x in seq if x[0] == "end"]
+    if not ends:
+        return [("C12|waitUntil|never-resumed", "%r: the waiting script never continued: %r %s" % (case, seq[-3:], [m["msg"][:80] for m in res["log"] if m["lvl"] <= 1][:1]), None, case)], info
+    if int(ends[0][1]) < n:
+        return [("C12|waitUntil|resumed-before-condition-true", "waitUntil let the script continue when its condition was still false (%s %d of %d): %r" % (
+            "evaluation" if how == "counter" else "flag value", int(ends[0][1]), n, seq[:6]), None, case)], info
+    if how == "counter" and [int(x[1]) for x in seq if x[0] == "ev"] != list(range(1, n + 1)):
+        return [("C12|waitUntil|condition-evaluations", "condition evaluated %r times, expected 1..%d" % ([int(x[1]) for x in seq if x[0] == "ev"], n), None, case)], info
+    return [], info
+
+
 def spaces(tier):
     q = tier == "quick"
     sl = [1, 2, 3, 7, 150] if q else SLICES
     return [Space("fairness", gen_fair([2, 3] if q else [2, 3, 4], sl, [100] if q else [100, 2000]), check_fair, variant="fast", describe="script sets x slice lengths: turn trace invariants + per-script results"),
             Space("sleep", lambda: gen_sleep(sl), check_sleep, variant="fast", describe="sleep durations x competitors x slices x ticks"),
             Space("scriptdone-terminate", lambda: gen_term(sl), check_term, variant="fast", describe="child length x delay before terminate x slices"),
+            Space("waituntil", lambda: gen_waituntil(sl), check_waituntil, variant="fast", describe="waitUntil whose condition turns true at its n-th evaluation / when another script sets a flag, with and without a competitor, all slices"),
             Space("self-terminate", lambda: gen_selfterm(sl), check_selfterm, variant="fast", describe="a script terminates itself, then reaches a sleep: statements before x kind of scheduling point x (_thisScript / own handle) x slices")]
